@@ -152,6 +152,8 @@ func decodeUnicode(s *Stream, p unsafe.Pointer) (unsafe.Pointer, error) {
 	s.buf = append(append(s.buf[:s.cursor-1], unicode...), s.buf[s.cursor+offset:]...)
 	unicodeOrgLen := offset - 1
 	s.length = s.length - (backSlashAndULen + (unicodeOrgLen - unicodeLen))
+	// the buffer got shorter than the input: keep InputOffset in step with the bytes consumed
+	s.offset += backSlashAndULen + (unicodeOrgLen - unicodeLen)
 	s.cursor = s.cursor - backSlashAndULen + unicodeLen
 	return pp, nil
 }
@@ -189,6 +191,7 @@ RETRY:
 	}
 	s.buf = append(s.buf[:s.cursor-1], s.buf[s.cursor:]...)
 	s.length--
+	s.offset++ // the buffer got one byte shorter than the input
 	s.cursor--
 	p = s.bufptr()
 	return p, nil
@@ -241,6 +244,7 @@ func stringBytes(s *Stream) ([]byte, error) {
 			_, _, p = s.stat()
 			cursor += runeErrBytesLen
 			s.length += runeErrBytesLen - 1 // one invalid byte replaced by the three bytes of U+FFFD
+			s.offset -= runeErrBytesLen - 1
 			continue
 		case nul:
 			s.cursor = cursor
@@ -272,6 +276,8 @@ func stringBytes(s *Stream) ([]byte, error) {
 				s.buf = append(append(append([]byte{}, s.buf[:cursor]...), runeErrBytes...), s.buf[cursor+1:]...)
 				cursor += runeErrBytesLen
 				s.length += runeErrBytesLen - 1 // one invalid byte replaced by the three bytes of U+FFFD
+				s.offset -= runeErrBytesLen - 1
+			s.offset -= runeErrBytesLen - 1
 				_, _, p = s.stat()
 			} else {
 				cursor += int64(size)
